@@ -299,6 +299,8 @@ var propDeps = map[string][]string{
 	"C03": {"C02"},
 	"C12": {"C02", "C03"},
 	"C09": {"C02", "C03"},
+	"C10": {"C09", "C02", "C03", "C01"},
+	"C11": {"C10", "C09", "C02", "C03", "C01"},
 	"C04b": {"C04"},
 }
 
